@@ -435,7 +435,10 @@ def calcsize(format: str) -> int:
         "COMPUTATIONAL-3",
         "PACKED-DECIMAL",
     ):
-        return (representation.picture_size + 1) // 2
+        # Digits, two per byte, plus the sign nibble which is present even when
+        # the picture has no S.
+        sign_positions = len(representation.digit_groups[0])
+        return (representation.picture_size - sign_positions) // 2 + 1
     elif representation.usage in (
         "COMP-1",
         "COMPUTATIONAL-1",
